@@ -19,10 +19,10 @@ git -C /repo worktree add --detach $CLEAN HEAD >>$LOG 2>&1 || { echo "$NAME: can
 ( cd $CLEAN && go build ./... && go test -vet=off -count=1 ./... ) >>$LOG 2>&1; SUITE=$?
 # 3. demonstration with the change
 mkdir -p $CLEAN/SEEDED && cp -r $WT/SEEDED/demo $CLEAN/SEEDED/demo
-( cd $CLEAN/SEEDED/demo && if [ -f run.sh ]; then timeout 900 sh run.sh $CLEAN; else timeout 900 go test ./...; fi ) >>$LOG 2>&1; DEMO_WITH=$?
+( cd $CLEAN/SEEDED/demo && if [ -f run.sh ]; then timeout 900 bash run.sh $CLEAN; else timeout 900 go test ./...; fi ) >>$LOG 2>&1; DEMO_WITH=$?
 # 4. demonstration without it
 ( cd $CLEAN && git checkout -- . && git status --short | grep -v SEEDED ) >>$LOG 2>&1
-( cd $CLEAN/SEEDED/demo && if [ -f run.sh ]; then timeout 900 sh run.sh $CLEAN; else timeout 900 go test ./...; fi ) >>$LOG 2>&1; DEMO_CLEAN=$?
+( cd $CLEAN/SEEDED/demo && if [ -f run.sh ]; then timeout 900 bash run.sh $CLEAN; else timeout 900 go test ./...; fi ) >>$LOG 2>&1; DEMO_CLEAN=$?
 git -C /repo worktree remove --force $CLEAN >/dev/null 2>&1
 echo "$NAME: suite rc=$SUITE; demo(with change) rc=$DEMO_WITH; demo(clean) rc=$DEMO_CLEAN"
 if [ $SUITE -eq 0 ] && [ $DEMO_WITH -ne 0 ] && [ $DEMO_CLEAN -eq 0 ]; then
